@@ -352,7 +352,7 @@ theorem searchLoop_dropped {keys : List Bytes} {keep : List Bool} {t : Trie1}
         have hcid := h.lt hc
         have hch : leftChildID r (labelIdxOfKey (knOf keys d) ws r.big)
             = ((r.firstChild : Int) - 1 + k, true) := by
-          rw [labelIdxOfKey_eq_labelAt]
+          rw [labelIdxOfKey_eq_labelAt _ _ _ (fun hb => (F.big hb).1)]
           show leftChildID r (labelOf keys ws r.big d) = _
           rw [← hkl, leftChildID_of_label r F.pw k hk']
         have hL' := left_step F st.lID k hk' c hrun hL
@@ -386,7 +386,7 @@ theorem searchLoop_dropped {keys : List Bytes} {keep : List Bool} {t : Trie1}
       · -- the label of `d` is absent: the loop ends here
         have hch : leftChildID r (labelIdxOfKey (knOf keys d) ws r.big)
             = ((r.firstChild : Int) - 1 + rankLabels r.labels (labelOf keys ws r.big d), false) := by
-          rw [labelIdxOfKey_eq_labelAt]
+          rw [labelIdxOfKey_eq_labelAt _ _ _ (fun hb => (F.big hb).1)]
           exact leftChildID_absent r _ hmem
         rw [srBranch_absent _ _ _ r st ws _ (rank_le _ _) hch]
         exact ⟨_, rfl, rfl, left_absent F st.lID d hs he hmem hL,
